@@ -12,7 +12,8 @@
 (* an error of TLC, never a verdict).                                                                             *)
 EXTENDS RatLA, TLC, Json
 CONSTANTS Mode,          \* "all": every (X, y) of shape NN x PP;  "sample": Chains chains of Samples random cases, n in 3..5, p in 1..2
-          NN, PP, Samples, Chains
+          NN, PP, Samples, Chains,
+          Slice          \* "all" mode only: 0 = every X; 1..5 = only the X with X[1][1] = Slice - 3 (splits a large enumeration into five runs)
 Vals == -2..2
 
 \* ---- definitions --------------------------------------------------------------------------------------------------
@@ -85,7 +86,7 @@ Draw(n, p) == [i \in 1..n |-> [j \in 1..p |-> RandomElement(Vals)]]
 DrawY(n) == [i \in 1..n |-> RandomElement(Vals)]
 \* "all": the X are the initial states and the y are chosen in the first step, so that the workers share the enumeration
 Init == IF Mode = "all"
-        THEN /\ cid = 0 /\ X \in [1..NN -> [1..PP -> Vals]] /\ y = [i \in 1..NN |-> 0] /\ ok = FALSE
+        THEN /\ cid = 0 /\ X \in [1..NN -> [1..PP -> Vals]] /\ (Slice = 0 \/ X[1][1] = Slice - 3) /\ y = [i \in 1..NN |-> 0] /\ ok = FALSE
         ELSE /\ cid \in {c * Samples : c \in 0..(Chains - 1)} /\ X = <<<<1>>, <<0>>, <<2>>>> /\ y = <<1, 0, 1>> /\ ok = TRUE
 NextAll == /\ Mode = "all" /\ cid = 0 /\ cid' = 1
            /\ X' = X /\ y' \in [1..NN -> Vals] /\ ok' = FullRank(X)
